@@ -459,7 +459,7 @@ func main() {
 	rep.Rule = "worlds of n miners with real keys and a real DKG of threshold t ((1,1) to (7,10), thorough to (14,20)); per scenario 2-3 miners' views of " +
 		"one round (round, timeout count, previous seed incl. edge values), each fed through the real mc.AddVRFShare with a random subset and order of " +
 		"valid shares mixed with shares for another message, of another key, undecodable, zero, summed, of a later timeout count, duplicates and " +
-		"shares of a node outside the magic block; non-trivial = at least one share rejected, one view completed and one view (or prefix) below t; " +
+		"shares of a node outside the magic block; in two of three views the round is restarted (Round.Restart + IncrementTimeoutCount) after a phase with fewer than t shares or after any phase, and shares for the new timeout count follow; non-trivial = at least one share rejected, one view completed and one view (or prefix) below t; " +
 		"distinct by all inputs"
 	cf := &vh.CasesFile{Imports: []string{"Base.Corr", "Model.DKGZ", "Model.VRFAdmit", "Corr.VRF"}, CaseType: "vzc_case", CheckFn: "vzc_check", Shard: 18}
 
